@@ -295,12 +295,14 @@ static int ex_lineno(char **num)
 		break;
 	case '\'':
 		if (lbuf_jump(xb, (unsigned char) *++(*num), &n, NULL))
-			return -1;
+			return -2;
 		++*num;
 		break;
 	case '/':
 	case '?':
 		n = ex_search(num);
+		if (n < 0)
+			return -2;
 		break;
 	default:
 		if (isdigit((unsigned char) **num)) {
@@ -333,7 +335,13 @@ static int ex_region(char *loc, int *beg, int *end)
 	}
 	while (*loc) {
 		int end0 = *end;
-		*end = ex_lineno(&loc) + 1;
+		int ln = ex_lineno(&loc);
+		if (ln < -1) {
+			*beg = -1;
+			*end = -1;
+			return 1;
+		}
+		*end = ln + 1;
 		*beg = naddr++ ? end0 - 1 : *end - 1;
 		if (!naddr++)
 			*beg = *end - 1;
